@@ -12,7 +12,8 @@ Record c19_obs := {
   go_unknown_before : store;               (* keys under none of the prefixes *)
   go_img : list (nat * Z * image);         (* (collection field, key) -> writes of the genesis setter for that entry *)
   go_cdef : list (nat * (Z * Z));          (* counter field -> entry written for count 0 *)
-  go_after : option (mstate * store) }.    (* store of the fresh chain after InitChain on the export; None = export or import failed *)
+  go_after : option (mstate * store);      (* store of the fresh chain after InitChain on the export; None = export or import failed *)
+  go_reexport_same : bool }.               (* ExportGenesis of the fresh chain = the export it was initialised from *)
 
 Definition spec_of (n : nat) : modspec := nth n all_specs fee_spec.
 
@@ -93,7 +94,8 @@ Definition c19_check (o : c19_obs) : list Z :=
       flag (gid (go_module o) f)
            (store_eqb (norm_field m cdef f (field (go_before o) f)) (norm_field m cdef f (field after f))))
       (seq 0 (nfields m)) ++
-    flag 99 (store_eqb (go_unknown_before o) unknown_after)
+    flag 99 (store_eqb (go_unknown_before o) unknown_after) ++
+    flag 97 (go_reexport_same o)
   end ++
   flat_map (fun f => match field (go_before o) f with [] => [] | _ => [100 + gid (go_module o) f] end)
            (seq 0 (nfields m)).
